@@ -138,6 +138,53 @@ Theorem c09_status_next_is_first_undone : forall (K : consts) (ostride : option 
 Proof. exact status_next_first_undone. Qed.
 Print Assumptions c09_status_next_is_first_undone.
 
+(* ---------- the scheduler (sequentially) ---------- *)
+(* not dry, something planned, no in-flight job seen (or block_on_inflight=false): the call appends
+   [job_spawned j planned; decided(scheduled, j, planned)] and, with execute, the planned checkpoints in ascending
+   order (readable summaries of matching coverage) and [job_ended j completed made]; without execute nothing more *)
+Theorem c09_sched_creates_planned : forall (K : consts) (ostride omax : option N) (oblock oexec odry : option bool) (s : st),
+  valid (log s) ->
+  opt_or ostride (k_default_stride K) <> 0 ->
+  opt_orb odry false = false ->
+  plan_cuts K (opt_or ostride (k_default_stride K)) (clamp (k_maxnew_lo K) (k_maxnew_hi K) (opt_or omax 1)) (log s) <> [] ->
+  (if opt_orb oblock true then find_inflight K (log s) else None) = None ->
+  exists s' r,
+    sched K ostride omax oblock oexec odry s = (s', Ok r)
+    /\ sr_decision r = (if opt_orb oexec true then 4 else 3) /\ sr_err r = None /\ sr_job r = Some (fresh_job (log s))
+    /\ sr_planned r = plan_cuts K (opt_or ostride (k_default_stride K))
+                                (clamp (k_maxnew_lo K) (k_maxnew_hi K) (opt_or omax 1)) (log s)
+    /\ sched_outcome (opt_or ostride (k_default_stride K)) (sr_planned r) (opt_orb oexec true) s s'
+                     (fresh_job (log s)) (sr_result r)
+                     (BDecided 3 (Some (fresh_job (log s))) (sr_planned r) (opt_or ostride (k_default_stride K))
+                               (clamp (k_maxnew_lo K) (k_maxnew_hi K) (opt_or omax 1)) (opt_orb oblock true)
+                               (opt_orb oexec true) (nlen (msgs (log s)))).
+Proof. exact sched_creates_planned. Qed.
+Print Assumptions c09_sched_creates_planned.
+
+(* a summarizer job in flight inside the scanned tail and block_on_inflight: exactly one frame, the decision
+   skipped_inflight, is appended; no job, nothing created *)
+Theorem c09_sched_skipped_inflight : forall (K : consts) (ostride omax : option N) (oblock oexec odry : option bool) (s : st) (j0 : N),
+  opt_or ostride (k_default_stride K) <> 0 ->
+  opt_orb odry false = false ->
+  plan_cuts K (opt_or ostride (k_default_stride K)) (clamp (k_maxnew_lo K) (k_maxnew_hi K) (opt_or omax 1)) (log s) <> [] ->
+  opt_orb oblock true = true -> find_inflight K (log s) = Some j0 ->
+  exists s' r e,
+    sched K ostride omax oblock oexec odry s = (s', Ok r) /\ sr_decision r = 2 /\ sr_job r = None /\ sr_result r = []
+    /\ log s' = log s ++ [e]
+    /\ ebody e = BDecided 2 None (sr_planned r) (sr_stride r) (sr_maxnew r) true (sr_exec r) (nlen (msgs (log s)))
+    /\ sr_planned r = plan_cuts K (opt_or ostride (k_default_stride K))
+                                (clamp (k_maxnew_lo K) (k_maxnew_hi K) (opt_or omax 1)) (log s).
+Proof. exact sched_skipped. Qed.
+Print Assumptions c09_sched_skipped_inflight.
+
+Example c09_demo_sched :
+  valid (log demo_inflight)
+  /\ find_inflight real_consts (log demo_inflight) = Some 1
+  /\ plan_cuts real_consts 1 (clamp 1 32 1) (log demo_inflight) = [{| pl_ord := 2; pl_seq := 2; pl_mid := 3 |}]
+  /\ map (fun e => enc_body (ebody e)) (skipn 3 (log demo_inflight))
+     = [[3; 1; 1; 1; 2; 2; 3]; [5; 3; 1; 1; 1; 2; 2; 3; 1; 1; 1; 0; 2]].
+Proof. exact demo_sched_facts. Qed.
+
 (* ---------- manual checkpoints ---------- *)
 (* accepted => the target is a message of the thread (seq and id), exactly one checkpoint frame is appended and its
    summary is readable with matching coverage; refused => nothing changes *)
